@@ -80,22 +80,22 @@ Definition signal (k : failkind) (m : msg) (id : nat) : M unit := fun s =>
   match k with
   | KPanic => mkOut (Ok tt) s (wev [USignal k m id] false false)
   | _ => let t := ts s in
-         mkOut (Ok tt) (with_ts s (mkT (Some m) (cleanups t) (ctx t) (cleaning t) (skipreq t))) (wev [USignal k m id] true false)
+         mkOut (Ok tt) (with_ts s (mkT (Some m) (cleanups t) (ctx t) (cleaning t) (skipreq t) (ood t))) (wev [USignal k m id] true false)
   end.
 (* T.Cleanup(f) *)
 Definition register (id : nat) (f : prog) : M unit := fun s =>
   let t := ts s in
-  mkOut (Ok tt) (with_ts s (mkT (failed t) ((id, f) :: cleanups t) (ctx t) (cleaning t) (skipreq t))) (wev [UReg id] false true).
+  mkOut (Ok tt) (with_ts s (mkT (failed t) ((id, f) :: cleanups t) (ctx t) (cleaning t) (skipreq t) (ood t))) (wev [UReg id] false true).
 (* T.Context(): the live context, a cancelled one during cleanup, or a new one; returns ctx.Err() == nil *)
 Definition context_call : M bool := fun s =>
   let t := ts s in
   if ctx t then mkOut (Ok true) s (wev [UCtxSeen true] false false)
   else if cleaning t then mkOut (Ok false) s (wev [UCtxSeen false] false false)
-  else mkOut (Ok true) (with_ts s (mkT (failed t) (cleanups t) true (cleaning t) (skipreq t))) (wev [UCtxNew; UCtxSeen true] false true).
+  else mkOut (Ok true) (with_ts s (mkT (failed t) (cleanups t) true (cleaning t) (skipreq t) (ood t))) (wev [UCtxNew; UCtxSeen true] false true).
 (* T.cleanup(): cleaning := true and the context cancelled; pop one function; cleaning := false *)
 Definition begin_cleanup : M unit := fun s =>
   let t := ts s in
-  mkOut (Ok tt) (with_ts s (mkT (failed t) (cleanups t) false true (skipreq t))) (wev (if ctx t then [UCtxCancel; UCleanupBegin] else [UCleanupBegin]) false false).
+  mkOut (Ok tt) (with_ts s (mkT (failed t) (cleanups t) false true (skipreq t) (ood t))) (wev (if ctx t then [UCtxCancel; UCleanupBegin] else [UCleanupBegin]) false false).
 (* pop is only ever called from T.cleanup, i.e. with cleaning = true (begin_cleanup set it and nothing on
    this T clears it before end_cleanup); the guard makes that explicit so that the operation is well behaved
    in every state *)
@@ -105,16 +105,22 @@ Definition pop_cleanup : M (option prog) := fun s =>
   | [] => mkOut (Ok None) s wnil
   | (id, c) :: rest =>
       if cleaning t
-      then mkOut (Ok (Some c)) (with_ts s (mkT (failed t) rest (ctx t) true (skipreq t))) (wev [URun id] false false)
+      then mkOut (Ok (Some c)) (with_ts s (mkT (failed t) rest (ctx t) true (skipreq t) (ood t))) (wev [URun id] false false)
       else mkOut (Ok None) s wnil
   end.
 Definition end_cleanup : M unit := fun s =>
-  let t := ts s in mkOut (Ok tt) (with_ts s (mkT (failed t) (cleanups t) (ctx t) false (skipreq t))) (wev [UCleanupEnd] false false).
+  let t := ts s in mkOut (Ok tt) (with_ts s (mkT (failed t) (cleanups t) (ctx t) false (skipreq t) (ood t))) (wev [UCleanupEnd] false false).
 (* T.runCleanup: a skip requested by a cleanup function is remembered (the first one) instead of propagating *)
 Definition note_skip (m : msg) : M unit := fun s =>
   let t := ts s in
   mkOut (Ok tt) (with_ts s (mkT (failed t) (cleanups t) (ctx t) (cleaning t)
-                                (match skipreq t with Some m0 => Some m0 | None => Some m end))) wnil.
+                                (match skipreq t with Some m0 => Some m0 | None => Some m end) (ood t))) wnil.
+(* T.runCleanup on the T of a Custom generator function: a generator ran out of data inside a cleanup function;
+   remembered (the first one), decides the fate of the attempt in maybeValue *)
+Definition note_ood (m : msg) : M unit := fun s =>
+  let t := ts s in
+  mkOut (Ok tt) (with_ts s (mkT (failed t) (cleanups t) (ctx t) (cleaning t) (skipreq t)
+                                (match ood t with Some m0 => Some m0 | None => Some m end))) wnil.
 (* Draw delivered v to user code on the current T *)
 Definition note_draw (v : val) : M unit := fun s => mkOut (Ok tt) s (mkW [] [] [] [UDraw v] [v] 1 false false false).
 (* run m on a fresh inner T that shares the stream (Custom); afterwards the outer T is back, with a
@@ -125,7 +131,7 @@ Definition with_fresh_T {A} (m : M A) : M A := fun s =>
   let inner := ts (post o) in
   let sk := match skipreq outer with Some m => Some m | None => skipreq inner end in
   let outer' := mkT (match failed inner with Some msg => Some msg | None => failed outer end)
-                    (cleanups outer) (ctx outer) (cleaning outer) sk in
+                    (cleanups outer) (ctx outer) (cleaning outer) sk (ood outer) in
   let w' := w o in
   mkOut (res o) (with_ts (post o) outer')
         (mkW (rd w') (rpd w') (glog w') (UFrameBegin :: tr w' ++ [UFrameEnd]) (pv w') 0 (nf w')
